@@ -18,6 +18,7 @@ import (
 	"github.com/trustbloc/sidetree-go/pkg/jwsutil"
 	"github.com/trustbloc/sidetree-go/pkg/util/ecsigner"
 	"github.com/trustbloc/sidetree-go/pkg/util/edsigner"
+	"github.com/trustbloc/sidetree-go/pkg/util/pubkey"
 	"github.com/trustbloc/sidetree-go/pkg/util/signutil"
 )
 
@@ -144,6 +145,42 @@ func Run(r *core.Run) {
 				return nil
 			})
 			r.Observe(id)
+		}
+	}
+	// the public JWK as the library itself derives it from the key (pubkey.GetPublicKeyJWK), for ordinary keys and for keys one of
+	// whose coordinates begins with one or two zero bytes: what the library's signer produces verifies under it
+	{
+		var lk []*keys.Key
+		for _, t := range keys.Types {
+			lk = append(lk, keys.New(t, 2), leadingZeroKey(t))
+			if t != "Ed25519" {
+				lk = append(lk, keys.WithTwoLeadingZeros(t, 0), keys.WithTwoLeadingZeros(t, 1))
+			}
+		}
+		for _, k := range lk {
+			k := k
+			id := "library-made-jwk/" + k.String()
+			r.Case(id, func() *core.Fail {
+				jwk, err := pubkey.GetPublicKeyJWK(k.Public())
+				if err != nil {
+					return &core.Fail{Key: id, What: "GetPublicKeyJWK failed for a supported key: " + err.Error(), Detail: map[string]any{"jwk": k.JWKMap()}}
+				}
+				payload := []byte(`{"made-by":"library"}`)
+				compact, err := signutil.SignPayload(payload, signer(k))
+				if err != nil {
+					return &core.Fail{Key: id, What: "SignPayload failed: " + err.Error()}
+				}
+				det := map[string]any{"jws": compact, "library_jwk": jwk, "expected_jwk": k.JWKMap()}
+				if res, err := jwsutil.VerifyJWS(compact, jwk); err != nil || string(res.Payload) != string(payload) {
+					return &core.Fail{Key: id, What: fmt.Sprintf("JWS made by the library signer does not verify under the JWK the library derives from the same key: %v", err), Detail: det}
+				}
+				if _, err := jwsutil.VerifyJWS(compact, jwkOf(k.JWKMap())); err != nil {
+					return &core.Fail{Key: id, What: "JWS made by the library signer does not verify under the key's JWK: " + err.Error(), Detail: det}
+				}
+				return nil
+			})
+			r.Observe(id)
+			r.Class("library-made-jwk")
 		}
 	}
 	// one signer, several signatures held at the same time: each JWS / signature made by the matching key over its own bytes must
